@@ -58,10 +58,27 @@ impl OrderQueue {
     /// Hand an order back to the head of the queue: it is popped before every order added
     /// with `push`. Used for an order that was taken out and keeps its time priority.
     pub fn push_front(&self, order: Arc<OrderType<()>>) {
-        let order_id = order.id();
-        let ticket = self.next_ticket.fetch_add(1, Ordering::Relaxed);
-        self.orders.insert(order_id, (ticket, order));
-        self.front_ids.push((order_id, ticket));
+        self.push_front_all(std::iter::once(order));
+    }
+
+    /// Hand several orders back to the head of the queue, in the given order, ahead of
+    /// everything that is waiting there already (orders handed back earlier were behind
+    /// them). The head lane is a FIFO, so what it holds is taken off and appended again
+    /// after the new entries.
+    pub fn push_front_all(&self, orders: impl IntoIterator<Item = Arc<OrderType<()>>>) {
+        let mut waiting = Vec::new();
+        while let Some(ticket) = self.front_ids.pop() {
+            waiting.push(ticket);
+        }
+        for order in orders {
+            let order_id = order.id();
+            let ticket = self.next_ticket.fetch_add(1, Ordering::Relaxed);
+            self.orders.insert(order_id, (ticket, order));
+            self.front_ids.push((order_id, ticket));
+        }
+        for ticket in waiting {
+            self.front_ids.push(ticket);
+        }
     }
 
     /// Attempt to pop an order from the queue
